@@ -306,6 +306,13 @@ func c20Singles() []c20Spec {
 	add(`{ print "before"; print $ }`+"\x03"+`match ($.kind) { "b" => 0, k => match (k) { "a" => match ($.items) { [x, y] => [y, x] } } }`+doc, "before\n2\nbefore\n1\n")
 	add(`function r(n) { if (n <= 0) return 0; return 1 + r(n - 1) } { print "before"; print r(3000 + $) }`+"\x03"+`match ($.kind) { "a" => $.items }`+doc, "before\n3001\nbefore\n3002\n")
 	add(`{ print "before"; $.deep[1048577] = 1; print "after" }`+"\x03"+`match (1) { 1 => [$] }`+doc, "REFUSED")
+	// index values that are no count at all: NaN and the infinities, reached through num() and by arithmetic
+	for _, idx := range []string{`num("NaN")`, `num("Inf")`, `num("-Inf")`, `(num("Inf") - num("Inf"))`, `num("1e308") * 10`, `num($.bucket)`} {
+		add(`{ print "before"; a = [1, 2]; a[`+idx+`] = 1; print "after" }`+"\x02"+`[{"bucket": "NaN"}]`, "REFUSED")
+		add(`{ print "before"; a = [1, 2]; x = a[`+idx+`]; print "after" }`+"\x02"+`[{"bucket": "NaN"}]`, "REFUSED")
+		add(`{ print "before"; hist[3] = 0; hist[`+idx+`]++; print "after" }`+"\x02"+`[{"bucket": "NaN"}]`, "REFUSED")
+	}
+	add(`function bump(num) { return num + 1 } function walk(n) { if (n == 0) { return bump(num("41")) } return walk(n - 1) } BEGIN { print "before"; print walk(0), walk(60), walk(100), walk(1000), walk(4000) }`, "before\n42 42 42 42 42\n")
 	// a width beyond the maximum in the second / third directive, after directives within it
 	for _, f := range []string{`"%%-8s %%%ds|"`, `"%%3f%%%dv"`, `"%%5s%%-%ds"`, `"%%s %%s %%0%df"`} {
 		for _, w := range []string{"65537", "70000", "99999999999"} {
